@@ -175,12 +175,57 @@ def tables_snapshot(mm):
                  [(repr(vars(p)), us) for p, us in d.get("store_throughput", [])], d.get("store_throughput_default")])
 
 
+def reg_types_for(mm, lk):
+    """source-register types the store getter is probed with: the one assign_tp_lt uses, the types the store table names,
+    and one class that is certainly a register class of the ISA"""
+    out = []
+    if isinstance(lk, dict):
+        r = lk["reg"] if lk["reg"] is not None else lk["reg_s"]
+        if r is not None and isinstance(r[1], str):
+            out.append(r[1])
+    for pat, _ in mm._data["store_throughput"]:
+        if isinstance(pat.src, str):
+            out.append(pat.src)
+    out.append("gpr" if mm._data["isa"].lower() == "x86" else "x")
+    seen = []
+    for t in out:
+        if t not in seen:
+            seen.append(t)
+    return seen[:3]
+
+
+def observe_q(mm, form, lk):
+    """the memory operands assign_tp_lt hands to the getters (first of source+src_dst / destination+src_dst) and, for every
+    memory operand of the instruction, what the implementation's getters answer (the expected values of Model/Rows.v)"""
+    import c08_rows as R
+    from osaca.parser.memory import MemoryOperand
+    if form.mnemonic is None:
+        return None, []
+    so = form.semantic_operands
+    lds = [o for o in so["source"] + so["src_dst"] if isinstance(o, MemoryOperand)]
+    sts = [o for o in so["destination"] + so["src_dst"] if isinstance(o, MemoryOperand)]
+    q = {"ld": R.mem_json(lds[0]) if lds else None, "st": R.mem_json(sts[0]) if sts else None}
+    mems = []
+    for o in lds[:1] + sts[:1] + [o for o in form.operands if isinstance(o, MemoryOperand)]:
+        if not any(o is x for x in mems):
+            mems.append(o)
+    rts = reg_types_for(mm, lk)
+    return q, [R.observe_rows(mm, o, rts) for o in mems]
+
+
 def cost_case(mm, sem, form, text="", origin=""):
     """observe + run on the SAME objects (the official result of costing this line in this history)"""
+    import c08_rows as R
     case = machine_json(mm)
     case["text"] = text
     case["origin"] = origin
+    case["tables"] = R.tables_json(mm)
+    # YAML-level rows for the oracle: here what the in-process patterns say (synthetic worlds build them directly);
+    # for shipped models the check replaces this by the rows of the model FILE
+    case["yrows"] = {"load_throughput": R.yaml_rows_from_patterns(mm._data["load_throughput"], "dst"),
+                     "store_throughput": R.yaml_rows_from_patterns(mm._data["store_throughput"], "src")}
     case["lk"] = observe(mm, sem, form)
+    case["q"], case["rowobs"] = observe_q(mm, form, case["lk"])
     case["exp"] = run_impl(sem, form)
     return case
 
@@ -231,15 +276,29 @@ def c_mach(c):
         c_opt(c["ld_mult"], c_table), c_opt(c["st_mult"], c_table))
 
 
+def c_lookup(lk, rows=True):
+    return "(mklookup %s %s %s %s %s %s %s [%s] [%s] %s [%s])" % (
+        c_bool(lk["has_ld"]), c_bool(lk["has_st"]), c_bool(lk["suffix"]),
+        c_opt(lk["direct"], c_entry), c_opt(lk["direct_s"], c_entry), c_opt(lk["reg"], c_reg), c_opt(lk["reg_s"], c_reg),
+        "; ".join("(mkldrow %s %s %s)" % (c_opt(r[0], cs), c_bool(r[1]), c_uoplist(r[2])) for r in lk["ld_rows"]) if rows else "",
+        "; ".join(c_uoplist(r) for r in lk["st_rows"]) if rows else "", c_bool(lk["dest_has_mem"]),
+        "; ".join(c_bool(b) for b in lk["srcdst_wb"]))
+
+
 def c_line(lk):
     if lk == "noinstr":
         return "LNoInstr"
-    return "(LInstr (mklookup %s %s %s %s %s %s %s [%s] [%s] %s [%s]))" % (
-        c_bool(lk["has_ld"]), c_bool(lk["has_st"]), c_bool(lk["suffix"]),
-        c_opt(lk["direct"], c_entry), c_opt(lk["direct_s"], c_entry), c_opt(lk["reg"], c_reg), c_opt(lk["reg_s"], c_reg),
-        "; ".join("(mkldrow %s %s %s)" % (c_opt(r[0], cs), c_bool(r[1]), c_uoplist(r[2])) for r in lk["ld_rows"]),
-        "; ".join(c_uoplist(r) for r in lk["st_rows"]), c_bool(lk["dest_has_mem"]),
-        "; ".join(c_bool(b) for b in lk["srcdst_wb"]))
+    return "(LInstr %s)" % c_lookup(lk)
+
+
+def c_rline(case):
+    """the line WITHOUT the rows the implementation looked up: Model/Rows.v selects them from the raw tables"""
+    import c08_rows as R
+    lk = case["lk"]
+    if lk == "noinstr":
+        return "RNoInstr"
+    q = case["q"]
+    return "(RInstr %s (mkmemq %s %s))" % (c_lookup(lk, rows=False), R.c_omem(q["ld"]), R.c_omem(q["st"]))
 
 
 def c_exp(exp):
@@ -257,7 +316,8 @@ def c_exp(exp):
                                                      flit(o["lat_wo"]), flit(o["tp"]), "; ".join(o["flags"]))
 
 
-HEADER = """From Coq Require Import ZArith List String Bool PrimFloat.
+HEADER = """From OV Require Import Model.PyString Model.Match Model.Rows.
+From Coq Require Import ZArith List String Bool PrimFloat.
 From OV Require Import Model.Num Model.Pressure Model.Costing Model.PyString.
 Import ListNotations.
 Open Scope string_scope.
@@ -287,21 +347,68 @@ Definition agrees (r e : res (cost (T:=F))) : bool :=
   | Err a, Err b => err_eqb a b
   | _, _ => false
   end.
+(* rows computed by Model/Rows.v: None (the matcher raised) never agrees with a costed line *)
+Definition agrees_o (r : option (res (cost (T:=F)))) (e : res (cost (T:=F))) : bool :=
+  match r with Some x => agrees x e | None => false end.
+Definition RW := list (option string * list (F * list string)).
+Definition ostr_eqb (a b : option string) : bool :=
+  match a, b with None, None => true | Some x, Some y => String.eqb x y | _, _ => false end.
+Fixpoint rows_eqb (a b : RW) : bool :=
+  match a, b with
+  | [], [] => true
+  | x :: r, y :: s => andb (andb (ostr_eqb (fst x) (fst y)) (ul_eqb (snd x) (snd y))) (rows_eqb r s)
+  | _, _ => false
+  end.
+Definition orows_eqb (a b : option RW) : bool :=
+  match a, b with None, None => true | Some x, Some y => rows_eqb x y | _, _ => false end.
+(* one memory operand against the raw tables: the three getters, bit for bit on the micro-op lists *)
+Definition rows_ok (a : Match.isa) (tb : tables (T:=F)) (mem : memop) (ld st0 : option RW) (sts : list (string * option RW)) : bool :=
+  andb (orows_eqb (get_load_throughput a (t_ld tb) (t_ld_default tb) mem) ld)
+       (andb (orows_eqb (get_store_throughput a (t_st tb) (t_st_default tb) mem None) st0)
+             (forallb (fun p => orows_eqb (get_store_throughput a (t_st tb) (t_st_default tb) mem (Some (fst p))) (snd p)) sts)).
 """
 
 FOOTER = """
+Definition bad_of (l : list bool) : string :=
+  String.concat "," (map string_of_nat (map fst (filter (fun p => negb (snd p)) (combine (seq 0 (List.length l)) l)))).
 Definition results := map (fun c => let '(m, l, e) := c in agrees (cost_line FNum m l) e) cases.
+Definition rresults := map (fun c => let '(m, tb, l, e) := c in agrees_o (cost_line_rows FNum m tb l) e) rcases.
+Definition rowresults := map (fun c => let '(i, a, tb, mem, ld, st0, sts) := c in (i, rows_ok a tb mem ld st0 sts)) rowcases.
 Definition summary :=
-  let bad := map fst (filter (fun p => negb (snd p)) (combine (seq 0 (List.length results)) results)) in
-  String.concat "," (map string_of_nat bad) ++ "|" ++ string_of_nat (List.length results).
+  bad_of results ++ "|" ++ bad_of rresults ++ "|" ++
+  String.concat "," (map (fun p => string_of_nat (fst p)) (filter (fun p => negb (snd p)) rowresults)) ++ "|" ++
+  string_of_nat (List.length results) ++ "|" ++ string_of_nat (List.length rresults) ++ "|" ++ string_of_nat (List.length rowresults).
 Eval vm_compute in summary.
 """
 
 
 def coq_shard(cases):
-    items = ["(%s,\n  %s,\n  %s)" % (c_mach(c), c_line(c["lk"]), c_exp(c["exp"])) for c in cases]
-    return (HEADER + "Definition cases : list (mach (T:=F) * line (T:=F) * res (cost (T:=F))) := [\n"
-            + ";\n".join(items) + "]." + FOOTER)
+    """three comparisons per costed line: (1) Model/Costing.v on the rows the implementation looked up, (2) Model/Rows.v +
+    Model/Costing.v on the RAW tables and the memory operand, (3) every getter answer for every memory operand of the line"""
+    import c08_rows as R
+    defs, names = [], {}
+
+    def shared(prefix, text, typ):
+        if text not in names:
+            names[text] = "%s_%d" % (prefix, len(names))
+            defs.append("Definition %s : %s := %s." % (names[text], typ, text))
+        return names[text]
+    old, new, rows = [], [], []
+    for i, c in enumerate(cases):
+        m = shared("mach", c_mach(c), "mach (T:=F)")
+        tb = shared("tabs", R.c_tables(c["tables"]), "tables (T:=F)")
+        e = c_exp(c["exp"])
+        old.append("(%s,\n  %s,\n  %s)" % (m, c_line(c["lk"]), e))
+        new.append("(%s, %s,\n  %s,\n  %s)" % (m, tb, c_rline(c), e))
+        for ob in c["rowobs"]:
+            rows.append("(%d, %s, %s, %s,\n  %s,\n  %s,\n  [%s])" % (
+                i, R.c_isa(c["isa"]), tb, R.c_mem(ob["mem"]), R.c_rows(ob["ld"]), R.c_rows(ob["st0"]),
+                "; ".join("(%s, %s)" % (cs(rt), R.c_rows(r)) for rt, r in ob["st"])))
+    return (HEADER + "\n".join(defs)
+            + "\nDefinition cases : list (mach (T:=F) * line (T:=F) * res (cost (T:=F))) := [\n" + ";\n".join(old) + "]."
+            + "\nDefinition rcases : list (mach (T:=F) * tables (T:=F) * rline (T:=F) * res (cost (T:=F))) := [\n" + ";\n".join(new) + "]."
+            + "\nDefinition rowcases : list (nat * Match.isa * tables (T:=F) * memop * option RW * option RW * list (string * option RW)) := [\n"
+            + ";\n".join(rows) + "]." + FOOTER)
 
 
 # ------------------------------------------------------------------ independent recomputation (property text)
